@@ -424,7 +424,7 @@ def uccgsd_generator(n_qubits, single_coeffs=None, double_coeffs=None, up_down=F
         raise TypeError("Spin-ordering arg (up_down) must be boolean.")
 
     coeffs = get_coeffs(n_qubits, single_coeffs, double_coeffs)  # check coeffecients passed, or generate random ones
-    operators = get_all_excitations(n_qubits // 2, up_down=False)  # get all operator input arguments
+    operators = get_all_excitations(n_qubits // 2, up_down=up_down)  # get all operator input arguments
 
     all_operators = list()
     for index, oi in enumerate(operators):
